@@ -18,6 +18,7 @@ CFG = dict(
              "scalar coding enters through the bundle `Coding α`; theorems hold for every coding and are phrased with quantBin = decode∘encode; that Go's float32 narrowing / 8-bit rounding is what the driver instance computes is checked by correspondence only",
              "ASCII generators use dyadic values with ≤ 13 significant digits (exact shortest printing); arbitrary doubles only in the binary encodings",
              "user float2/3/4 attributes are written as name_k scalars and come back as scalars (RoundTrips does not demand them); Color as float4 is not claimed by the default writer"],
+    rule="one evaluation = one request line answered by both the Go implementation and the Lean model/oracle; every generated file is additionally loaded through every public entry point / reader type (…holds.entrypoints_agree) and a handful of files per run cross the 4096-record / 4096-byte / 64 KiB boundaries with values tagged by vertex number",
     assumptions=["uint32(float64) for negative values wraps as on amd64 (binary `int` writer)",
                  "well-formed meshes: all attribute arrays one length (AttributeLength reads an arbitrary map entry otherwise)"],
 )
